@@ -64,7 +64,10 @@ def obligations(tier):
             obs.append({'h': 'scalar', 'k': k, 'disp': d})
         obs.append({'h': 'text', 'disp': d, 'n': 2, '_budget': 120.0, '_weight': 1000})
         if tier == 'quick':
-            prod = it.product(QK_J, KINDS, QK_M, KINDS, (False,))
+            prod = list(it.product(QK_J, KINDS, QK_M, KINDS, (False,)))
+            # every other JSON typing of the jsonrpc and of the method member, one member at a time
+            prod += [(kj, ki, 'str', kp, False) for kj in KINDS if kj not in QK_J for ki in ('int', 'absent') for kp in ('list1', 'absent')]
+            prod += [('str', ki, km, kp, False) for km in KINDS if km not in QK_M for ki in ('int', 'absent') for kp in ('list1', 'absent')]
         else:
             prod = it.product(KINDS, KINDS, KINDS, KINDS, (False, True))
         for kj, ki, km, kp, extra in prod:
